@@ -25,9 +25,12 @@ type Ctx struct {
 	// TmplOverlay replaces template files (repo-relative path -> content).
 	TmplOverlay map[string]string
 	ExtraEnv    []string
-	rel         *goan.Rel
-	evals       map[string]*evalCache
-	linears     map[string]*tmpl.Linear
+	// Contrib, when set, overlays the named contributed template set (generator/templates/contrib/<name>)
+	// on the standard templates, as `--template <name>` does (thorough tier).
+	Contrib string
+	rel     *goan.Rel
+	evals   map[string]*evalCache
+	linears map[string]*tmpl.Linear
 }
 
 func NewCtx(r *core.Run) *Ctx {
